@@ -61,7 +61,19 @@ theorem dp_readData (v : Variant) (d : Daemon) (i : Id) : SameDp d (readData v d
   · split
     · exact (s2.trans (dp_set _ i _)).trans (dp_internalSuspend _ i)
     · exact s2.trans (dp_set _ i _)
-  · exact s2
+  · split
+    · exact s2.trans (dp_set _ i _)
+    · exact s2
+
+theorem dp_writeStep (v : Variant) (d : Daemon) (i : Id) : SameDp d (writeStep v d i).1 := by
+  obtain ⟨d1, h1, h2⟩ := writeStep_cases v d i
+  have s1 : SameDp d d1 := by
+    rcases h1 with e | e <;> rw [e]
+    · rfl
+    · exact dp_updateLastActivity v d i
+  rcases h2 with e | e <;> rw [e]
+  · exact s1
+  · exact s1.trans (dp_set d1 i _)
 
 theorem dp_callHandlersSel0 (v : Variant) (d : Daemon) (i : Id) (r : Bool) : SameDp d (callHandlersSel0 v d i r).1 := by
   unfold callHandlersSel0 seq2 closeOther
@@ -69,10 +81,17 @@ theorem dp_callHandlersSel0 (v : Variant) (d : Daemon) (i : Id) (r : Bool) : Sam
   split
   · exact dp_handleIdle d i
   · split
-    · exact (dp_readData v d i).trans (dp_handleIdle _ i)
+    · exact (dp_writeStep v d i).trans (dp_handleIdle _ i)
     · split
-      · exact (dp_set d i _).trans (dp_handleIdle _ i)
-      · exact dp_handleIdleP d i
+      · refine (dp_readData v d i).trans ?_
+        unfold fastTrack
+        split
+        · unfold seq2; dsimp only
+          exact (dp_writeStep v _ i).trans (dp_handleIdle _ i)
+        · exact dp_handleIdle _ i
+      · split
+        · exact (dp_set d i _).trans (dp_handleIdle _ i)
+        · exact dp_handleIdleP d i
 
 /-- the end of `call_handlers` (accumulating form): raised for a connection in a PROCESS wait state,
     never cleared, no connection record touched -/
